@@ -1,7 +1,7 @@
 """A7 QD: who may mutate an ordered container, and how (resolved callees on resolved receiver places)."""
 from collections import defaultdict
 
-from .facts import short, clean_ty, ty_head
+from .facts import short, clean_ty, ty_head, render
 from .proto import JQC, PARKED
 from .rule import ok, bad, undecided
 from .rules_lw import FieldUse, PSC
@@ -169,6 +169,18 @@ def qd_pending(ctx):
     }, 'PipeStreamCore.pending')
 
 
+def expr_root_kind(e):
+    """'arg' / 'upvar' / 'var' / 'call' ... of the innermost base of an access path (through fields, derefs, clones)."""
+    for _ in range(30):
+        if e[0] in ('field', 'downcast', 'index', 'deref', 'ref'):
+            e = e[1]
+        elif e[0] == 'call' and e[2] and e[1].endswith(('::clone', '::deref', '::borrow', '::as_ref')):
+            e = e[2][0]
+        else:
+            break
+    return e[0]
+
+
 def qd_schedule(ctx):
     """SchedulerCore.schedule: ready queues are appended, taken from the front by pool threads, removed by a stealing waiter."""
     out = []
@@ -196,6 +208,39 @@ def qd_schedule(ctx):
             m = name.split('::')[-1]
             counts[m] += 1
             key = '%s|schedule.%s' % (short(fn.name), m)
+            if m in ('retain', 'retain_mut'):
+                # what is removed is exactly the entries of the queue being claimed: `!Arc::ptr_eq(entry, queue)` keeps everybody else's
+                for a_ in t['args'][1:]:
+                    if a_['k'] == 'const' or not clean_ty(a_['pl']['ty']).startswith('{closure:'):
+                        continue
+                    cf = ctx.F.fn(clean_ty(a_['pl']['ty'])[9:-1])
+                    if not cf:
+                        continue
+                    pe = [(b2, t2) for b2, t2 in cf.calls() if (t2['func'].get('fn') or '').endswith('Arc::ptr_eq') and not cf.blocks[b2]['cleanup']]
+                    if len(pe) != 1:
+                        continue
+                    pkey = '%s|schedule.retain-keeps-the-others' % short(fn.name)
+                    r_ = pe[0][1]['dest']['l']
+                    negated = False
+                    direct = False
+                    for b3 in cf.blocks:
+                        for s3 in b3['stmts']:
+                            if s3['k'] == 'assign' and not s3['pl']['p'] and s3['pl']['l'] == 0:
+                                rv3 = s3['rv']
+                                if rv3['k'] == 'unop' and rv3['op'] == 'Not' and rv3['a']['k'] in ('copy', 'move') and rv3['a']['pl']['l'] == r_:
+                                    negated = True
+                                elif rv3['k'] == 'use' and rv3['op']['k'] in ('copy', 'move') and rv3['op']['pl']['l'] == r_:
+                                    direct = True
+                    if pe[0][1]['dest']['l'] == 0 and not pe[0][1]['dest']['p']:
+                        direct = True
+                    args_ = [cf.expr_of_operand(x_) for x_ in pe[0][1]['args']]
+                    roots_ = set(expr_root_kind(x_) for x_ in args_)
+                    if negated and not direct and roots_ == {'arg', 'upvar'}:
+                        out.append(ok('QD-schedule', pkey, 'the entries removed are those of the queue being claimed (`!Arc::ptr_eq(entry, queue)`)', fn=fn.name))
+                    elif direct and not negated:
+                        out.append(bad('QD-schedule', pkey, 'the retain keeps the entries of the claimed queue and removes everybody else\'s: every other Pending queue loses its place on the schedule and is never picked up by a pool thread', loc=fn.loc(bb), fn=fn.name))
+                    elif negated and roots_ != {'arg', 'upvar'}:
+                        out.append(bad('QD-schedule', pkey, 'the retain does not compare each entry with the queue being claimed (%s)' % ', '.join(render(x_)[:30] for x_ in args_), loc=fn.loc(bb), fn=fn.name))
             if m in allowed:
                 out.append(ok('QD-schedule', key, 'allowed mutator', loc=fn.loc(bb), fn=fn.name))
             else:
